@@ -4,6 +4,7 @@ import GmQuic.Lemmas.StreamRun
 import GmQuic.Lemmas.StreamMono
 import GmQuic.Lemmas.StreamDone
 import GmQuic.Lemmas.StreamLiveN
+import GmQuic.Lemmas.StreamLiveV
 /-!
 C01 — stream data is delivered reliably, in order, exactly once.
 
@@ -242,6 +243,48 @@ theorem eventually_complete (s0 : Stream) (hf : Fair s0) (hwin : s0.snd.written.
     unfold Sender.pollShutdown; simp [so6.1, d4']
   · have d4' : t.snd.st = .dataRcvd := d4
     unfold Sender.pollFlush; simp [so6.1, d4']
+
+/-- LIVENESS when the application never shuts the stream down ("EOF iff shutdown was called", the other half): from
+every `Fair` state in which `shutdown` was not called, with the stream inside the window, the same suffix WITHOUT
+`shutdown` (every frame in flight lost or delivered+acknowledged; any complete sequence of legal picks; exactly the new
+frames delivered and acknowledged; one large read) ends with every written byte read, every byte acknowledged,
+`poll_flush` = `Ready(Ok)`, and NO end-of-stream reported. -/
+theorem eventually_flushed (s0 : Stream) (hf : Fair s0)
+    (hopen : s0.snd.shutdown = false ∧ (s0.snd.st = .ready ∨ s0.snd.st = .sending))
+    (hwin : s0.snd.written.length ≤ s0.snd.maxData)
+    (keep : Nat → Bool) (ps : List (Nat × Nat)) (cap : Nat) (hcap : s0.snd.written.length < cap) :
+    let s2 := s0.run (settleOps keep (List.range s0.emitted.length))
+    PickSeq s2 ps →
+    let s3 := s2.run (pickOps ps)
+    s3.snd.somePick = none →
+    let t := s3.run (settleOps (fun _ => true) (List.range' s0.emitted.length (s3.emitted.length - s0.emitted.length)) ++
+                      [.read cap])
+    t.out = s0.snd.written ∧ t.snd.written = s0.snd.written ∧ t.snd.pollFlush = "ready" ∧ t.snd.allAcked ∧
+      t.eof = false := by
+  intro s2 hps s3 hidle t
+  have ho : Open s0.snd := ⟨hf.snd.1, hopen.1, hopen.2⟩
+  obtain ⟨r2, ok2, o2, w2, m2, k2⟩ := phaseB' hf.reach hf.hon ho hf.rcv keep
+  have k3 := kd_picks hps k2
+  have r3 : Reach s3 := reach_run r2 _
+  have m23 : Mono s2 s3 := mono_run r2 _ (pickOps_coop ps)
+  have o3 : Open s3.snd := open_run _ (pickOps_noshut ps) o2
+  have hw3 : s3.snd.written = s0.snd.written := m23.wr.trans w2
+  obtain ⟨d1, d2, d3, d4, d5⟩ := phaseD' r3 (m23.ok ok2) o3 k3
+    (by rw [hw3, m23.md, m2]; exact hwin) hidle (cap := cap) (by rw [hw3]; exact hcap)
+  exact ⟨by rw [d1, hw3], by rw [d2, hw3], d3, d5, d4⟩
+
+def exOpen : List HOp := [.write [1, 2, 3, 4], .pick 0 2, .pick 2 2, .lose 1, .deliverAck 0]
+
+-- non-vacuity: two frames, the second lost; no shutdown; the retransmission `(2, 2)` completes the picks
+example :
+    let s2 := (after 20 20 (hops exOpen)).run (settleOps (fun _ => false) (List.range 2))
+    (after 20 20 (hops exOpen)).snd.shutdown = false ∧ (after 20 20 (hops exOpen)).snd.st = .sending ∧
+    s2.snd.pickOk 2 2 ∧ (s2.run (pickOps [(2, 2)])).snd.somePick = none := by decide
+
+example :
+    let t := (after 20 20 (hops exOpen)).run (settleOps (fun _ => false) (List.range 2) ++ pickOps [(2, 2)] ++
+      settleOps (fun _ => true) (List.range' 2 1) ++ [.read 5])
+    t.out = [1, 2, 3, 4] ∧ t.snd.pollFlush = "ready" ∧ t.eof = false ∧ t.snd.st = .sending := by decide
 
 /-- A complete cooperative suffix EXISTS from every such state (so the theorem above is never vacuous and the
 schedule it describes can always be played to the end). -/
